@@ -88,6 +88,8 @@ impl BlockchainParser {
         self.stats.started_at = now;
         self.stats.last_log = now;
         info!(target: "parser", "Processing blocks starting from height {} ...", height);
+        #[cfg(feature = "verif")]
+        crate::verif::on_start(height);
         self.callback.on_start(height)?;
         trace!(target: "parser", "on_start() called");
         Ok(())
@@ -95,6 +97,8 @@ impl BlockchainParser {
 
     /// Triggers the on_block() callback and updates statistics.
     fn on_block(&mut self, block: &Block, height: u64) -> Result<()> {
+        #[cfg(feature = "verif")]
+        crate::verif::deliver(block, height);
         self.callback.on_block(block, height)?;
         trace!(target: "parser", "on_block(height={}) called", height);
         if self.callback.show_progress() {
@@ -108,6 +112,8 @@ impl BlockchainParser {
         info!(target: "parser", "Done. Processed blocks up to height {} in {:.2} minutes.",
         height, (Instant::now() - self.stats.started_at).as_secs_f32() / 60.0);
 
+        #[cfg(feature = "verif")]
+        crate::verif::on_complete(height);
         self.callback.on_complete(height)?;
         trace!(target: "parser", "on_complete() called");
         Ok(())
